@@ -1,6 +1,7 @@
 package main
 
 import (
+	"sort"
 	"flag"
 	"fmt"
 	"os"
@@ -34,6 +35,25 @@ func main() {
 		}
 		for _, mr := range vc.MapRanges(p) {
 			fmt.Printf("%v\t%s#%d\t%s\t%s\n", mr.OK, mr.Func, mr.Ordinal, mr.Pos, mr.Why)
+		}
+	case "aliases":
+		// prints the alias-write events on package-level state and the fields that may hold package-level references
+		p, err := vc.Load("/repo")
+		if err != nil {
+			fmt.Fprintln(os.Stderr, err)
+			os.Exit(2)
+		}
+		evs, ft := vc.GlobalAliasWrites(p)
+		for _, e := range evs {
+			fmt.Println("EVENT", e.String())
+		}
+		var ks []string
+		for k := range ft {
+			ks = append(ks, k)
+		}
+		sort.Strings(ks)
+		for _, k := range ks {
+			fmt.Println("FIELD", k, ft[k])
 		}
 	case "why":
 		p, err := vc.Load("/repo")
